@@ -325,6 +325,11 @@ func ZzvC16Round() {
 		zzverif.Assert(j.Status.Phase != v1alpha1.PodMigrationJobFailed, "a job refused only for lack of headroom does not fail")
 		_, still := a.waitingCollection[j.UID]
 		passed := f.checkJobPassedArbitration(j.UID)
+		if passed {
+			zzverif.Reach("a-waiting-job-passed")
+		} else {
+			zzverif.Reach("a-waiting-job-stays-waiting")
+		}
 		zzverif.Assert(still != passed, "a waiting job either passed arbitration or stays waiting")
 		zzverif.Assert(passed == (j.Annotations[AnnotationPassedArbitration] == "true"), "the passed annotation matches the arbitrator's record")
 	}
